@@ -612,7 +612,8 @@ static int restore_interior_string (char **val, svalue_t * sv) {
 
 static int parse_numeric (char **cpp, char c, svalue_t * dest) {
   char *cp = *cpp;
-  int res, neg;
+  uint64_t res; /* magnitude; LPC integers are 64-bit */
+  int neg;
 
   if (c == '-')
     {
@@ -712,7 +713,7 @@ static int parse_numeric (char **cpp, char c, svalue_t * dest) {
   else
     {
       dest->type = T_NUMBER;
-      dest->u.number = (neg ? -res : res);
+      dest->u.number = (int64_t)(neg ? 0 - res : res);
       *cpp = cp;
       return 1;
     }
